@@ -102,6 +102,11 @@ func c02Profiles(tier string) []Profile {
 	framed := &SeqProfile{Name: "durable-framed", Keys: keys, Depth: d - 1, Init: initX, Mon: harness.Monitors{Durable: true}, CBMask: harness.CBFramed,
 		Letters: storeLetters(true, true)}
 	conc = append(conc, framed.Profile(fmt.Sprintf("the durable profile (histories of length <= %d) with a BeforeItemWrite / AfterItemRead pair installed that stores every value with a two-byte trailer (length, checksum) and verifies and strips it on read: the stored form differs in length from the in-memory form; every state a successful Flush reported must come back through the pair after re-opening a copy of the file", d-1)))
+	rv := &SeqProfile{Name: "durable-revert", Keys: keys, Depth: d - 1, Init: initX, Mon: harness.Monitors{Durable: true},
+		Letters: func(w *harness.World) []Letter {
+			return append(storeLetters(true, true)(w), Letter{"Revert", func(w *harness.World) { w.Revert() }})
+		}}
+	conc = append(conc, rv.Profile(fmt.Sprintf("the durable alphabet plus FlushRevert, histories of length <= %d (idle Flushes, Flushes that only add or remove a collection, reverts of those): re-opening yields the most recent successful Flush that was not reverted - exactly one Flush is taken back per FlushRevert", d-1)))
 	tt := 4400
 	if tier == "thorough" {
 		tt = 9000
